@@ -17,10 +17,10 @@
 (*    comparison operators and positions are drawn with RandomElement      *)
 (*    (seeded by -seed).                                                   *)
 (*                                                                         *)
-(* Family "small": leaves with at most 20 values, constants -9..9; cases   *)
+(* Family "small": leaves with at most 40 values, constants -9..9; cases   *)
 (* whose magnitude bound exceeds MaxMag are not emitted, so that the       *)
 (* checker can enumerate all environments with native integers.            *)
-(* Family "wide": UInt/Int:60..64 (and :32) leaves, landmark constants     *)
+(* Family "wide": UInt/Int:62..64 and :31..33 leaves, landmark constants    *)
 (* around 2^31, 2^32, 2^63, 2^64; every variable is used at most once and  *)
 (* every ?: condition is a fresh one-bit flag, so interval arithmetic is   *)
 (* exact.                                                                  *)
@@ -28,7 +28,8 @@
 EXTENDS Integers, Sequences, FiniteSets, TLC, Json
 B == INSTANCE BigInt
 
-CONSTANTS Family, Exhaustive, MaxDepth, MaxMag, NVars
+CONSTANTS Family, Exhaustive, MaxDepth, MaxMag, NVars,
+          FullConsts   \* exhaustive mode: all of -9..9 (TRUE) or the landmark subset (FALSE)
 
 VARIABLES vars, rty, pre, todo, used, done
 vs == <<vars, rty, pre, todo, used, done>>
@@ -37,14 +38,14 @@ vs == <<vars, rty, pre, todo, used, done>>
 (* Leaf catalogues *)
 
 VT(k, w, p) == [k |-> k, w |-> w, param |-> p]
-SmallTypes == <<VT("UInt", 2, FALSE), VT("UInt", 3, FALSE), VT("Int", 2, FALSE), VT("Int", 3, FALSE),
-                VT("Bcd", 4, FALSE), VT("Bcd", 5, FALSE), VT("UInt", 3, TRUE), VT("Int", 2, TRUE)>>
+SmallTypes == <<VT("UInt", 2, FALSE), VT("UInt", 3, FALSE), VT("Int", 1, FALSE), VT("Int", 3, FALSE),
+                VT("Bcd", 3, FALSE), VT("Bcd", 4, FALSE), VT("Bcd", 6, FALSE), VT("UInt", 3, TRUE), VT("Int", 2, TRUE)>>
 WideTypes == <<VT("UInt", 64, FALSE), VT("Int", 64, FALSE), VT("UInt", 63, FALSE), VT("Int", 63, FALSE),
-               VT("UInt", 62, FALSE), VT("Int", 62, FALSE), VT("UInt", 61, FALSE), VT("Int", 61, FALSE),
-               VT("UInt", 60, FALSE), VT("Int", 60, FALSE), VT("UInt", 64, TRUE), VT("Int", 64, TRUE),
-               VT("UInt", 32, FALSE), VT("Int", 32, FALSE)>>
+               VT("UInt", 62, FALSE), VT("Int", 62, FALSE), VT("UInt", 33, FALSE), VT("Int", 33, FALSE),
+               VT("UInt", 32, FALSE), VT("Int", 32, FALSE), VT("UInt", 31, FALSE), VT("Int", 31, FALSE),
+               VT("UInt", 64, TRUE), VT("Int", 64, TRUE), VT("UInt", 32, TRUE), VT("Int", 32, TRUE)>>
 Types == IF Family = "small" THEN SmallTypes ELSE WideTypes
-Names == <<"a", "b", "c", "d", "e", "f", "g", "h">>
+Names == <<"a", "b", "c", "d", "e", "f", "g", "h", "i", "j", "k", "l", "m", "n", "o", "p">>
 FlagNames == <<"fa", "fb", "fc">>
 
 MagOfType(t) == CASE t.k = "UInt" -> 2 ^ t.w - 1
@@ -91,7 +92,7 @@ Node(fn, n) == [leaf |-> FALSE, e |-> IntE(0), fn |-> fn, n |-> n]
 
 Init ==
   /\ pre = <<>> /\ used = {} /\ done = FALSE
-  /\ rty \in (IF Family = "small" THEN {"i", "b"} ELSE {"i"})
+  /\ rty \in {"i", "b"}
   /\ todo = <<Hole(rty, 0)>>
   /\ IF Exhaustive
      THEN vars = Types
@@ -122,7 +123,7 @@ Var ==
 Const ==
   /\ Open /\ H.ty = "i" /\ UNCHANGED used
   /\ IF Family = "small"
-     THEN \E c \in Pick(IF Exhaustive THEN QuickConsts ELSE SmallConsts) : PutLeaf(ConstE(c))
+     THEN \E c \in Pick(IF Exhaustive /\ ~FullConsts THEN QuickConsts ELSE SmallConsts) : PutLeaf(ConstE(c))
      ELSE \E j \in Pick(1..Len(Landmarks)) :
             LET x == Landmarks[j]
             IN  PutLeaf(IF x.neg THEN Op("-", <<BigE(<<>>), BigE(x.mag)>>) ELSE BigE(x.mag))
@@ -154,7 +155,8 @@ Max == Open /\ H.ty = "i"
 Bound == Open /\ H.ty = "i" /\ \E fn \in Pick({"$upper_bound", "$lower_bound"}) : PutNode(fn, <<Sub("i")>>)
 Choice == Open /\ (Family = "wide" => H.ty = "i")
                /\ PutNode("?:", <<Sub("b"), Sub(H.ty), Sub(H.ty)>>)
-CmpInt == Open /\ H.ty = "b" /\ Family = "small"
+\* wide family: only as the root (conditions of ?: must stay independent one-bit flags)
+CmpInt == Open /\ H.ty = "b" /\ (Family = "small" \/ H.d = 0)
           /\ \E fn \in Pick({"==", "!=", "<", "<=", ">", ">="}) : PutNode(fn, <<Sub("i"), Sub("i")>>)
 CmpOther == Open /\ H.ty = "b" /\ Family = "small"
             /\ \E fn \in Pick({"==", "!="}) : \E ty \in Pick({"b", "e"}) : PutNode(fn, <<Sub(ty), Sub(ty)>>)
